@@ -137,16 +137,20 @@ theorem decOk_imp_relaxed (mode : Bool) (desc : Packet) (cut : Option Nat) (fed 
     test (both empty: a fresh receiver); the view is read from the packet object the caller kept, after
     all of them.  H265Packet decodes each payload on its own, so neither the model's answer nor what
     C14 demands ("decode every well-formed … payload to exactly the encoded field values") depends on
-    them; they are part of the input so that a failing case shows the receiver's history. -/
+    them; they are part of the input so that a failing case shows the receiver's history.
+    `<sub>` = 1: the receiver is not an H265Packet but the exported sub-parser of the described form
+    (H265SingleNALUnitPacket / H265AggregationPacket), ONE value for `before`, the payload and `after`;
+    the view is written from what its accessors returned right after the payload was decoded, kept
+    by the caller and re-read after `after`.  The model answers with that sub-parser (`decObsSub`). -/
 def dec : Handler :=
   mkHandler
     (do let m ← Rd.bool; let (p, _) ← rdPacket false; let c ← Rd.opt Rd.nat; let b ← Rd.bytes
-        let _before ← Rd.list Rd.bytes; let _after ← Rd.list Rd.bytes
-        pure (m, p, c, b))
+        let _before ← Rd.list Rd.bytes; let _after ← Rd.list Rd.bytes; let sub ← Rd.bool
+        pure (m, p, c, b, sub))
     (do let r ← rdResParsed; let h ← Rd.bool; pure ({ res := r, head := h } : C14.DecObs))
-    (fun (m, _, _, b) => decObs m b)
-    (fun (m, p, c, b) o => decOkRelaxed m p c b o)
-    (fun (m, p, c, _) => p.WF m && semanticOK p &&
+    (fun (m, p, _, b, sub) => if sub then decObsSub m p b else decObs m b)
+    (fun (m, p, c, b, _) o => decOkRelaxed m p c b o)
+    (fun (m, p, c, _, _) => p.WF m && semanticOK p &&
       (match c with | none => true | some n => decide (n < (encode p).length)))
 
 /-! ### c14.rt -/
